@@ -145,6 +145,16 @@ class Gen:
         t2 = u2.format(a=self.bd("<", "", lst=[0, w, 0, 0]), b=self.bd(">", "", lst=[w, 0, 0, 0]))
         return r.choice(PREFIX) + "{[>]" + t1 + ", " + t2 + " [<]}" + self.dist() + r.choice(SUFFIX)
 
+    def markov_copolymer(self):
+        """transition lists with two positive entries per row: the next unit is a genuinely random pick along the list"""
+        r = self.r
+        u1, u2 = r.sample(UNITS2, 2)
+        p, q, p2, q2 = (r.choice([1, 2, 0.5, 3]) for _ in range(4))
+        # descriptors: 0 <A 1 >A 2 <B 3 >B ; a '>' may go to either '<' (idx 0 or 2), a '<' to either '>' (idx 1 or 3)
+        t1 = u1.format(a=self.bd("<", "", lst=[0, p, 0, q]), b=self.bd(">", "", lst=[p, 0, q, 0]))
+        t2 = u2.format(a=self.bd("<", "", lst=[0, p2, 0, q2]), b=self.bd(">", "", lst=[q2, 0, p2, 0]))
+        return r.choice(PREFIX) + "{[>]" + t1 + ", " + t2 + " [<]}" + self.dist() + r.choice(SUFFIX)
+
     def step_growth(self):
         r = self.r
         aa = r.choice(["[<]C(=O)CCCCC(=O)[<]", "[<]C(=O)c1ccc(cc1)C(=O)[<]", "[<]OCCO[<]"])
@@ -206,7 +216,7 @@ class Gen:
         return self.r.choice(["CCO", "CCCCC", "c1ccccc1", "OCC(O)CO", "CC(=O)O", "[NH4+]", "C1CCCCC1"])
 
     ARCHETYPES = ["homopolymer", "random_copolymer", "block_copolymer", "alternating", "step_growth", "star", "graft",
-                  "end_initiated", "two_ids", "defective_list"]
+                  "end_initiated", "two_ids", "defective_list", "markov_copolymer"]
 
     def molecule(self, archetype=None):
         a = archetype or self.r.choice(self.ARCHETYPES)
